@@ -65,7 +65,7 @@ func orderScenarios(tier string) []clustermc.Scenario {
 	for s := 0; s < seeds; s++ {
 		cfgs = append(cfgs, schedrun.Config{MapSeed: uint64(s)})
 	}
-	cfgs = append(cfgs, schedrun.Config{Signatures: true, MapSeed: 1}, schedrun.Config{Placement: "spread", MapSeed: 2})
+	cfgs = append(cfgs, schedrun.Config{Signatures: true, MapSeed: 1}, schedrun.Config{Placement: "spread", MapSeed: 2, ConsolidatingReclaim: true})
 	// a bounded per-queue job depth for allocate (the shard option queueDepthPerAction)
 	cfgs = append(cfgs, schedrun.Config{QueueDepth: map[string]int{"allocate": 2}, MapSeed: 1}, schedrun.Config{QueueDepth: map[string]int{"allocate": 1}, MapSeed: 2})
 	for _, lay := range layouts {
